@@ -36,13 +36,21 @@ def plan(tier, seed):
             for pi in range(pieces):
                 specs.append({"cls": cname, "stratum": stratum, "seed": seed, "tier": tier,
                               "start": pi * n // pieces, "count": (pi + 1) * n // pieces - pi * n // pieces})
+        specs.append({"cls": cname, "stratum": "clean", "own_obj": True, "seed": seed, "tier": tier,
+                      "start": 10**6, "count": 1 if tier == "quick" else 30})
     return specs
 
 
 def make_prog(spec, i):
     info = catalog.info(spec["cls"])
     r = gen.rng_for(spec["seed"], "C09", spec["cls"], spec["stratum"], i)
-    parts, meta = concgen.writer_program(r, info.kind, spec["stratum"])
+    if spec.get("own_obj"):
+        # two threads that each construct their own object on the not yet opened file and write once (lock
+        # registration races); explored with the constructor-delay schedule family as well
+        parts, meta = concgen.writer_program(r, info.kind, spec["stratum"], nthreads=2, max_ops=1,
+                                             topo="own_obj_in_thread")
+    else:
+        parts, meta = concgen.writer_program(r, info.kind, spec["stratum"])
     prog = {"cls": info.name, **parts}
     return prog, meta, r
 
@@ -61,7 +69,8 @@ def run_shard(spec):
         prog, meta, r = make_prog(spec, i)
         runner = conc.ProgramRunner(prog)
         try:
-            pol = ("sweep", "boundary") if spec["tier"] == "quick" else ("sweep", "boundary", "two_delay", "random")
+            pol = ("sweep", "boundary", "ctor") if spec["tier"] == "quick" \
+                else ("sweep", "boundary", "ctor", "two_delay", "random")
             res = conc.explore(prog, runner, r, spec["tier"],
                                {"cls": prog["cls"], "stratum": spec["stratum"], "topology": meta["topology"]},
                                policies=pol, deadline=t0 + BUDGET[spec["tier"]] * 1.5)
